@@ -80,6 +80,11 @@ func (fr *frame) call(c *ssa.CallCommon, ins ssa.Instruction, desc string) Val {
 	defer func() { fr.curCall = nil }()
 	var bindings []Val
 	if callee == nil {
+		if f, bs := fr.funcvalueCallee(c); f != nil {
+			callee, bindings = f, bs
+		}
+	}
+	if callee == nil {
 		fv := fr.val(c.Value)
 		if fv.Fn != nil {
 			callee = fv.Fn.Fn
@@ -107,6 +112,8 @@ func (fr *frame) call(c *ssa.CallCommon, ins ssa.Instruction, desc string) Val {
 	}
 	fr.atCall(callee, ins)
 	if con := vc.P.contractFor(callee); con != nil && !(fr.top && fr.depth == 0 && callee == fr.fn && false) {
+		fr.callBindings = bindings
+		defer func() { fr.callBindings = nil }()
 		return fr.applyContract(con, callee, callee.Signature, args, resT, pos)
 	}
 	return fr.callNoContract(callee, args, bindings, resT, pos)
@@ -127,7 +134,9 @@ func (fr *frame) callNoContract(callee *ssa.Function, args, bindings []Val, resT
 
 func (fr *frame) unknownCall(name string, resT types.Type, havoc bool) Val {
 	if havoc {
+		old := fr.mem.clone()
 		fr.vc.havocAll(&fr.mem, fr.vc.P.keepGhostOnUnknown)
+		fr.keepPrivate(old)
 	}
 	return fr.freshResult(name, resT)
 }
@@ -374,7 +383,151 @@ func (fr *frame) contractEnv(con *Contract, callee *ssa.Function, sig *types.Sig
 			env.vars[names[i]] = a
 		}
 	}
+	// captured variables of a closure called with known bindings
+	if callee != nil && len(fr.callBindings) == len(callee.FreeVars) {
+		for i, fv := range callee.FreeVars {
+			env.vars[fv.Name()] = fr.callBindings[i]
+		}
+	}
 	return env
+}
+
+// funcvalueTarget: a call through a function-typed variable that the contract of the
+// enclosing function declares (clause `funcvalue CELL = F`) to hold the closure F.
+func (vc *VC) funcvalueTarget(owner *ssa.Function, c *ssa.CallCommon) (*ssa.Function, string) {
+	ld, ok := c.Value.(*ssa.UnOp)
+	if !ok || ld.Op != token.MUL {
+		return nil, ""
+	}
+	name := ""
+	switch x := ld.X.(type) {
+	case *ssa.FreeVar:
+		name = x.Name()
+	case *ssa.Alloc:
+		name = x.Comment
+	}
+	if name == "" || owner == nil {
+		return nil, ""
+	}
+	con := vc.P.contractFor(owner)
+	if con == nil {
+		return nil, ""
+	}
+	for _, cl := range con.clauses("funcvalue") {
+		if cl.Name != name {
+			continue
+		}
+		return vc.funcvalueTargetByName(con, cl.Text)
+	}
+	return nil, ""
+}
+
+func (vc *VC) funcvalueTargetByName(con *Contract, text string) (*ssa.Function, string) {
+	for full, f := range vc.P.fns {
+		if full == con.Pkg+"."+text || full == "("+con.Pkg+"."+strings.TrimPrefix(text, "(") {
+			return f, text
+		}
+	}
+	return nil, ""
+}
+
+func (fr *frame) funcvalueCallee(c *ssa.CallCommon) (*ssa.Function, []Val) {
+	f, _ := fr.vc.funcvalueTarget(fr.fn, c)
+	if f == nil {
+		return nil, nil
+	}
+	var bs []Val
+	if f == fr.fn {
+		// the closure calls itself: same captured variables
+		for _, fv := range fr.fn.FreeVars {
+			bs = append(bs, fr.vals[fv])
+		}
+		return f, bs
+	}
+	for _, b := range fr.fn.Blocks {
+		for _, ins := range b.Instrs {
+			if mc, ok := ins.(*ssa.MakeClosure); ok && mc.Fn == f {
+				for _, bv := range mc.Bindings {
+					bs = append(bs, fr.val(bv))
+				}
+				return f, bs
+			}
+		}
+	}
+	return nil, nil
+}
+
+// funcvalueStructure: why `funcvalue CELL = F` is sound for fn: the variable is assigned exactly
+// once, the closure F, immediately after F is made; every other use is a load or F's capture of it.
+func funcvalueStructure(fn *ssa.Function, cell string, target *ssa.Function) string {
+	checkUses := func(v ssa.Value, isParent bool) string {
+		refs := v.Referrers()
+		if refs == nil {
+			return ""
+		}
+		stores := 0
+		for _, r := range *refs {
+			switch x := r.(type) {
+			case *ssa.UnOp:
+			case *ssa.DebugRef:
+			case *ssa.MakeClosure:
+				if x.Fn != target {
+					return "captured by another closure: " + x.Fn.Name()
+				}
+			case *ssa.Store:
+				if x.Addr != v {
+					return "its address is stored"
+				}
+				stores++
+				mc, ok := x.Val.(*ssa.MakeClosure)
+				if !ok || mc.Fn != target {
+					return "assigned something other than the closure " + target.Name()
+				}
+				// immediately after the closure is made
+				blk := x.Block()
+				for i, ins := range blk.Instrs {
+					if ins != ssa.Instruction(x) {
+						continue
+					}
+					j := i - 1
+					for j >= 0 {
+						if _, dbg := blk.Instrs[j].(*ssa.DebugRef); !dbg {
+							break
+						}
+						j--
+					}
+					if j < 0 || blk.Instrs[j] != ssa.Instruction(mc) {
+						return "assigned later than the creation of the closure"
+					}
+				}
+			default:
+				return fmt.Sprintf("used by %T", r)
+			}
+		}
+		if isParent && stores != 1 {
+			return fmt.Sprintf("%d assignments", stores)
+		}
+		if !isParent && stores != 0 {
+			return "assigned inside the closure"
+		}
+		return ""
+	}
+	if fn == target {
+		for _, fv := range fn.FreeVars {
+			if fv.Name() == cell {
+				return checkUses(fv, false)
+			}
+		}
+		return "no captured variable " + cell
+	}
+	for _, b := range fn.Blocks {
+		for _, ins := range b.Instrs {
+			if a, ok := ins.(*ssa.Alloc); ok && a.Comment == cell {
+				return checkUses(a, true)
+			}
+		}
+	}
+	return "no local variable " + cell
 }
 
 func (fr *frame) applyContract(con *Contract, callee *ssa.Function, sig *types.Signature, args []Val, resT types.Type, pos string) Val {
@@ -497,7 +650,7 @@ func (fr *frame) occ(key string) int {
 
 func (fr *frame) evalLets(con *Contract, env *SpecEnv) {
 	for _, cl := range con.clauses("let") {
-		env.vars[cl.Name] = env.eval(cl.Expr, nil)
+		env.vars[cl.Name] = env.letVal(cl.Name, env.eval(cl.Expr, nil))
 	}
 }
 
@@ -528,6 +681,7 @@ func (fr *frame) havocModifies(con *Contract, env *SpecEnv, old Mem) {
 	if len(con.clauses("modifies")) == 0 && len(con.clauses("may_reject")) > 0 {
 		// translator functions: unless stated otherwise they may modify every mutable component
 		vc.havocAll(&fr.mem, vc.P.keepGhostOnUnknown)
+		fr.keepPrivate(old)
 		return
 	}
 	regs := env.regions(con)
@@ -541,6 +695,7 @@ func (fr *frame) havocModifies(con *Contract, env *SpecEnv, old Mem) {
 	for _, r := range regs {
 		if r.kind == "all" {
 			vc.havocAll(&fr.mem, false)
+			fr.keepPrivate(old)
 			return
 		}
 		if r.kind == "fresh" {
@@ -814,6 +969,25 @@ func (fr *frame) enterLoop(li *loopInfo, fwdPreds []int) {
 	if len(invs) == 0 {
 		vc.note(fmt.Sprintf("loop %d of %s: default invariant true", li.ordinal, fr.fn))
 	}
+	for _, cl := range fr.loopClauses(li, "ghost_init") {
+		// ghost variable reset to its zero value on entry of the loop
+		env0 := fr.loopEnv(li, phiIn, fr.mem)
+		cur := env0.eval(&SExpr{Op: "ident", Name: cl.Name, Src: cl.Name}, nil)
+		srt := vc.compSort["G:"+cl.Name]
+		z := zeroOfSort(srt)
+		if z == "" {
+			panic(specError{"ghost_init: no zero value for sort " + srt})
+		}
+		fr.mem = fr.mem.clone()
+		vc.set(fr.mem, "G:"+cl.Name, ite(fr.guard, z, cur.S))
+		memIn = fr.mem
+	}
+	for _, cl := range fr.loopClauses(li, "hypothesis") {
+		// a hypothesis of the property itself (not of the code): assumed where the loop is entered
+		env0 := fr.loopEnv(li, phiIn, memIn)
+		vc.assume(implies(gIn, env0.evalBool(cl.Expr)))
+		vc.note(fmt.Sprintf("hypothesis of the property assumed at loop %d of %s: %s", li.ordinal, fr.fn, clauseLabel(cl)))
+	}
 	envIn := fr.loopEnv(li, phiIn, memIn)
 	for _, cl := range invs {
 		vc.oblige("inv-entry", fmt.Sprintf("%s/inv-entry[loop %d: %s]", vc.Name, li.ordinal, clauseLabel(cl)), gIn, envIn.evalBool(cl.Expr), fr.pos(li.head.Instrs[0].Pos()))
@@ -822,6 +996,7 @@ func (fr *frame) enterLoop(li *loopInfo, fwdPreds []int) {
 	pats := fr.loopMods(li)
 	fr.mem = memIn.clone()
 	vc.havocPats(&fr.mem, pats)
+	fr.keepPrivateInLoop(li, memIn)
 	gh := vc.fresh(fmt.Sprintf("%sL%d", fr.pfx, li.ordinal), sBool)
 	vc.assume(implies(gh, gIn))
 	fr.guard = gh
@@ -877,6 +1052,34 @@ func (fr *frame) backEdge(from, to *ssa.BasicBlock, g string) {
 	}
 }
 
+// zeroOfSort: the zero value of a ghost map sort (constant arrays of false / 0)
+func zeroOfSort(srt string) string {
+	switch {
+	case srt == sBool:
+		return "false"
+	case srt == sInt:
+		return "0"
+	case strings.HasPrefix(srt, "(Array "):
+		inner := srt[len("(Array ") : len(srt)-1]
+		d, i := 0, 0
+		for ; i < len(inner); i++ {
+			if inner[i] == '(' {
+				d++
+			} else if inner[i] == ')' {
+				d--
+			} else if inner[i] == ' ' && d == 0 {
+				break
+			}
+		}
+		z := zeroOfSort(inner[i+1:])
+		if z == "" {
+			return ""
+		}
+		return fmt.Sprintf("((as const %s) %s)", srt, z)
+	}
+	return ""
+}
+
 // loopMods: component patterns that the loop body may modify.
 func (fr *frame) loopMods(li *loopInfo) []string {
 	pats := map[string]bool{"G:iter:*": false}
@@ -924,11 +1127,22 @@ func (vc *VC) modsOfBlocks(blocks []*ssa.BasicBlock, pats map[string]bool, seen 
 					pats[vc.elemCompName(sliceElem(ms.Type()))] = true
 				}
 			case *ssa.MakeMap:
-				pats["brk"], pats["Kd:*"], pats["Kc:*"] = true, true, true
+				pats["brk"] = true
+				if mt, ok := under(x.Type()).(*types.Map); ok {
+					d, _, c := vc.mapComps(mt)
+					pats[d], pats[c] = true, true
+				} else {
+					pats["Kd:*"], pats["Kc:*"] = true, true
+				}
 			case *ssa.Store:
 				vc.modsOfAddr(x.Addr, pats)
 			case *ssa.MapUpdate:
-				pats["Kd:*"], pats["Kv:*"], pats["Kc:*"] = true, true, true
+				if mt, ok := under(x.Map.Type()).(*types.Map); ok {
+					d, v, c := vc.mapComps(mt)
+					pats[d], pats[v], pats[c] = true, true, true
+				} else {
+					pats["Kd:*"], pats["Kv:*"], pats["Kc:*"] = true, true, true
+				}
 			case *ssa.Range:
 				pats["G:iter:*"] = true
 			case *ssa.Next:
@@ -996,12 +1210,24 @@ func (vc *VC) modsOfCall(c *ssa.CallCommon, pats map[string]bool, seen map[*ssa.
 			pats[vc.elemCompName(sliceElem(c.Args[0].Type()))] = true
 			pats["brk"] = true
 		case "delete", "clear":
-			pats["Kd:*"], pats["Kc:*"] = true, true
+			if mt, ok := under(c.Args[0].Type()).(*types.Map); ok {
+				d, _, cc := vc.mapComps(mt)
+				pats[d], pats[cc] = true, true
+			} else {
+				pats["Kd:*"], pats["Kc:*"] = true, true
+			}
 		}
 		return
 	}
 	var con *Contract
 	callee := c.StaticCallee()
+	if callee == nil && !c.IsInvoke() {
+		if ld, ok := c.Value.(*ssa.UnOp); ok {
+			if f, _ := vc.funcvalueTarget(ld.Parent(), c); f != nil {
+				callee = f
+			}
+		}
+	}
 	if c.IsInvoke() {
 		con = vc.P.contracts[fmt.Sprintf("(%s).%s", typeKey(c.Value.Type()), c.Method.Name())]
 		if con == nil {
@@ -1017,7 +1243,7 @@ func (vc *VC) modsOfCall(c *ssa.CallCommon, pats map[string]bool, seen map[*ssa.
 	if con != nil {
 		for _, cl := range con.clauses("modifies") {
 			for _, e := range cl.Exprs {
-				for _, p := range regionPatterns(vc, e) {
+				for _, p := range regionPatternsTyped(vc, callee, e) {
 					pats[p] = true
 				}
 			}
@@ -1050,6 +1276,78 @@ func (vc *VC) modsOfCall(c *ssa.CallCommon, pats map[string]bool, seen map[*ssa.
 	seen[callee] = true
 	vc.modsOfBlocks(callee.Blocks, pats, seen, depth+1)
 	delete(seen, callee)
+}
+
+// specStaticType: Go type of a simple spec expression over the parameters and captured
+// variables of fn (identifiers, *e, e.f, e[i]); nil when it cannot be told.
+func specStaticType(fn *ssa.Function, e *SExpr) types.Type {
+	if fn == nil || e == nil {
+		return nil
+	}
+	switch e.Op {
+	case "ident":
+		for _, p := range fn.Params {
+			if p.Name() == e.Name {
+				return p.Type()
+			}
+		}
+		for _, p := range fn.FreeVars {
+			if p.Name() == e.Name {
+				return p.Type()
+			}
+		}
+	case "un":
+		if e.Name == "*" && len(e.Args) == 1 {
+			if pt, ok := under(specStaticType(fn, e.Args[0])).(*types.Pointer); ok {
+				return pt.Elem()
+			}
+		}
+	case "sel":
+		t := specStaticType(fn, e.Args[0])
+		if t == nil {
+			return nil
+		}
+		if pt, ok := under(t).(*types.Pointer); ok {
+			t = pt.Elem()
+		}
+		if st, ok := under(t).(*types.Struct); ok {
+			for i := 0; i < st.NumFields(); i++ {
+				if st.Field(i).Name() == e.Name {
+					return st.Field(i).Type()
+				}
+			}
+		}
+	case "index":
+		switch u := under(specStaticType(fn, e.Args[0])).(type) {
+		case *types.Slice:
+			return u.Elem()
+		case *types.Map:
+			return u.Elem()
+		}
+	}
+	return nil
+}
+
+// regionPatternsTyped: as regionPatterns, but as precise as the static types of the region allow.
+func regionPatternsTyped(vc *VC, callee *ssa.Function, e *SExpr) []string {
+	if e.Op == "call" && len(e.Args) >= 2 && callee != nil {
+		switch e.Args[0].Name {
+		case "map":
+			if mt, ok := under(specStaticType(callee, e.Args[1])).(*types.Map); ok {
+				d, v, c := vc.mapComps(mt)
+				return []string{d, v, c}
+			}
+		case "cell":
+			if pt, ok := under(specStaticType(callee, e.Args[1])).(*types.Pointer); ok && !isStruct(pt.Elem()) && !isArray(pt.Elem()) {
+				return []string{"C:" + vc.sortOf(pt.Elem())}
+			}
+		case "elems":
+			if st, ok := under(specStaticType(callee, e.Args[1])).(*types.Slice); ok {
+				return []string{vc.elemCompName(st.Elem())}
+			}
+		}
+	}
+	return regionPatterns(vc, e)
 }
 
 // regionPatterns: coarse component patterns for a modifies region (used for loop havoc).
@@ -1278,4 +1576,34 @@ func (fr *frame) atCall(callee *ssa.Function, ins ssa.Instruction) {
 		vc := fr.vc
 		vc.oblige("at-call", fmt.Sprintf("%s/at-call[%s: %s#%d]", vc.Name, cl.Name, clauseLabel(cl), fr.occ("atcall:"+cl.Name+clauseLabel(cl))), fr.guard, env.evalBool(cl.Expr), fr.pos(ins.Pos()))
 	}
+	// ghost assignments anchored at this call (after the assertions above)
+	for _, cl := range fr.con.clauses("ghost_at_call") {
+		if cl.Name != callee.Name() && cl.Name != callee.String() {
+			continue
+		}
+		fr.ghostAssign(cl.Tag, cl.Expr)
+	}
+}
+
+// ghostAssign: G := e, under the current path condition
+func (fr *frame) ghostAssign(name string, e *SExpr) {
+	vc := fr.vc
+	env := fr.baseEnv()
+	cur := env.eval(&SExpr{Op: "ident", Name: name, Src: name}, nil)
+	nv := env.eval(e, nil)
+	comp := "G:" + name
+	vc.set(fr.mem, comp, ite(fr.guard, nv.S, cur.S))
+}
+
+// letVal: the value of a `let` as a named constant (not a macro), so that it can occur in quantifier patterns
+func (env *SpecEnv) letVal(name string, v Val) Val {
+	if v.S == "" || v.L != nil || v.Tup != nil || v.T == nil {
+		return v
+	}
+	srt := env.vc.sortOf(v.T)
+	if v.Math {
+		srt = env.mathSort(v.T)
+	}
+	v.S = env.vc.defineConst("let:"+name, srt, v.S)
+	return v
 }
